@@ -1,0 +1,20 @@
+//go:build verif
+
+package pool
+
+import "github.com/go-netty/go-netty/utils/pool/internal/pmath"
+
+// VerifCeilToPowerOfTwo exposes the internal size-class arithmetic to the verification harness.
+func VerifCeilToPowerOfTwo(n int) int { return pmath.CeilToPowerOfTwo(n) }
+
+// VerifFloorToPowerOfTwo exposes the internal size-class arithmetic to the verification harness.
+func VerifFloorToPowerOfTwo(n int) int { return pmath.FloorToPowerOfTwo(n) }
+
+// VerifParams returns the number of shards and the step size of a pool.
+func (p *Pool[T]) VerifParams() (shards int, step int) { return len(p.pool), p.stepSize }
+
+// VerifClass returns the size class and the shard index Get would use for size.
+func (p *Pool[T]) VerifClass(size int) (class int, idx int) {
+	n := p.size(size)
+	return n, (n - 1) / p.stepSize
+}
